@@ -2,7 +2,10 @@
 
 package eval
 
-import "errors"
+import (
+	"errors"
+	"strings"
+)
 
 // ---- C11: DSL evaluation runs in global phases and dependency order ----
 
@@ -327,4 +330,44 @@ func VerifC11_LateRoot() {
 		}
 	}
 	verifAssert("late-root:dsl-executed[root-registered-during-execution]", ran)
+}
+
+// vReport reports an error on behalf of an expression: one source line for
+// every caller, as when a design uses a shared helper or a loop.
+func vReport(name string) { ReportError("bad %s", name) }
+
+// VerifC11_ReportedErrorsAllListed: every error reported while the DSL runs is
+// in the error RunDSL returns, also when they come from the same source line.
+func VerifC11_ReportedErrorsAllListed() {
+	Reset()
+	vLog = nil
+	names := []string{"alpha", "beta", "gamma"}
+	fails := make([]bool, len(names))
+	var set ExpressionSet
+	for i := range names {
+		i := i
+		fails[i] = nondetBool("fails")
+		e := &vExpr{id: i}
+		if fails[i] {
+			if nondetBool("through-shared-helper") {
+				e.onDSL = func() { vReport(names[i]) }
+			} else {
+				e.onDSL = func() { ReportError("bad %s", names[i]) }
+			}
+		}
+		set = append(set, e)
+	}
+	r := &vRoot{name: "r", id: 0}
+	r.sets = func() []ExpressionSet { return []ExpressionSet{set} }
+	Register(r)
+	err := RunDSL()
+	anyFails := fails[0] || fails[1] || fails[2]
+	verifAssert("error-iff-some-expression-reported-one", (err != nil) == anyFails)
+	if err == nil {
+		return
+	}
+	msg := err.Error()
+	for i, n := range names {
+		verifAssert("reported-errors-listed-exactly", strings.Contains(msg, "bad "+n) == fails[i])
+	}
 }
